@@ -212,6 +212,9 @@ def run(ctx):
                "after a futex wait no exit of the retry loop is decided by the timeout (neither errno == ETIMEDOUT "
                "nor the recomputed remaining time)")
 
+    # ------------------------------------------------------- R5d errno reset before the wait (shared with C01.R10)
+    C01.errno_discipline(ctx, "C02.R5d", fb)   # conditional: applies where a wait loop tests errno at all
+
     # ------------------------------------------------------- R2 set-and-wake
     def touches_slot_word(f):
         return any(ev["e"] == "call" and ev.get("name") in ("store", "exchange", "load", "fetch_add", "fetch_sub", "fetch_or", "fetch_and",
